@@ -89,7 +89,7 @@ Semantics emitted
     on fuel (`Res.err` when it runs out): the constant `loopFuel`, or — target option `fuel_param` — an explicit first
     argument `fuel` of every function that (transitively) contains a loop.
 
-Usage: rs2lean_fn.py [fn:bitseq|fn:ratio|fn:intext|fn:qint|fn:ff|fn:misc|fn:snf|fn:lll|fn:homcalc|fn:triang|fn:spmat|fn:trans|fn:spvec|fn:schur|fn:reducer|fn:poly|fn:geninfo]... [--src FILE]... [--out FILE]   (none = all)
+Usage: rs2lean_fn.py [fn:bitseq|fn:ratio|fn:intext|fn:qint|fn:ff|fn:misc|fn:snf|fn:lll|fn:homcalc|fn:triang|fn:spmat|fn:trans|fn:spvec|fn:schur|fn:reducer|fn:poly|fn:geninfo|fn:link]... [--src FILE]... [--out FILE]   (none = all)
   `--src` (once per source file of the target, in its order) and `--out` need exactly one target.
 Exit status 0: every selected generated file is up to date or was rewritten; 1: for some target something in a
 REQUIRED function (or in the item structure) is outside the subset — `rs2lean_fn: cannot translate: <what>` is printed
@@ -5602,11 +5602,13 @@ def main():
     a = ap.parse_args()
     names = []
     for t in a.targets:
+        if t == "tables": continue               # entry of a props "gen" list that belongs to tools/rs2lean.py (./check passes the whole list)
         n = t[3:] if t.startswith("fn:") else t
         if n not in TARGETS:
             print(f"rs2lean_fn: cannot translate: unknown target {t} (known: {', '.join('fn:' + k for k in TARGETS)})")
             sys.exit(1)
         names.append(n)
+    if a.targets and not names: sys.exit(0)
     names = names or list(TARGETS)
     if (a.src or a.out) and len(names) != 1:
         print("rs2lean_fn: cannot translate: --src/--out need exactly one target")
